@@ -52,6 +52,8 @@ pub enum Cmd {
     /// a simple command whose words all expand to nothing: its status is that of the last command
     /// substitution performed (XCU 2.9.1); `shape` picks where empty words stand around it
     SubstOnly { st: i32, shape: u8 },
+    /// `: $((n=VAL))` : an assignment made by arithmetic expansion (to the visible variable, else global)
+    ArithAssign { val: u32 },
     /// `: ${var=val}` : assigns if the variable is unset (to the visible variable, else globally)
     AssignSwitch { var: &'static str, val: String, colon: bool },
     Case { word: &'static str, items: Vec<(Vec<&'static str>, Cmd)>, terms: Vec<u8> },
@@ -288,6 +290,11 @@ impl Sh {
             }
             Cmd::Assign { var, val } => {
                 self.set(var, val.clone());
+                self.status = 0;
+                Flow::Normal
+            }
+            Cmd::ArithAssign { val } => {
+                self.set("n", val.to_string());
                 self.status = 0;
                 Flow::Normal
             }
@@ -942,6 +949,7 @@ impl Render<'_> {
             Cmd::ProbeVar { id, var } => format!("pvar k{id} {var}"),
             Cmd::ProbePos { id } => format!("probe k{id} \"$#\" \"${{1-}}\""),
             Cmd::Assign { var, val } => format!("{var}={val}"),
+            Cmd::ArithAssign { val } => format!(": $((n={val}))"),
             Cmd::AssignSwitch { var, val, colon } => format!(": ${{{var}{}={val}}}", if *colon { ":" } else { "" }),
             Cmd::True => "true".into(),
             Cmd::False => "false".into(),
@@ -1230,7 +1238,9 @@ impl<'a> Gen<'a> {
             let id = self.id();
             let var = *self.rng.pick(&["x", "y"]);
             let val = format!("{}{}", var, id);
-            return match self.rng.below(13) {
+            return match self.rng.below(15) {
+                13 => Cmd::ArithAssign { val: id },
+                14 => Cmd::ProbeVar { id, var: "n" },
                 12 => Cmd::ProbeVar { id, var: "t" },
                 0 => Cmd::Assign { var, val },
                 1 => {
